@@ -294,7 +294,7 @@ class Engine(HeapMixin, ExprMixin, AccessMixin, CallMixin, StmtMixin):
         line = getattr(exc.node, 'lineno', '?')
         if allowed is None:
           self.oblige(s1, 'no-%s@%s' % (exc.cls, line), z3.BoolVal(False), exc.node,
-                      'no %s escapes (%s)' % (exc.cls, exc.desc if hasattr(exc, 'desc') else exc.value))
+                      'no %s escapes (%s)' % (exc.cls, exc.desc))
         else:
           res.exit_reached += 1
           if allowed.get('when'):
